@@ -29,6 +29,7 @@ func main() {
 	verbose := fs.Bool("v", false, "verbose")
 	jobs := fs.Int("j", runtime.NumCPU(), "parallel solver processes")
 	dump := fs.Bool("dump", false, "only write scripts")
+	cover := fs.Bool("cover", false, "cover (vacuity) obligations only: each must NOT be unsat")
 	fs.Parse(os.Args[2:])
 
 	switch cmd {
@@ -97,8 +98,17 @@ func main() {
 				continue
 			}
 			fv := NewFuncVerifier(w, fn, pass)
+			fv.cover = *cover
 			fv.Run()
-			all = append(all, fv.obls...)
+			if *cover {
+				for _, o := range fv.obls {
+					if o.Kind == "cover" {
+						all = append(all, o)
+					}
+				}
+			} else {
+				all = append(all, fv.obls...)
+			}
 			for _, e := range fv.errs {
 				errs = append(errs, funcKey(fn)+": "+e)
 			}
@@ -114,7 +124,21 @@ func main() {
 			}
 			return
 		}
-		res := Discharge(all, *out, *timeout, *thorough, *jobs)
+		res := Discharge(all, *out, *timeout, *thorough, *jobs, nil)
+		if *cover {
+			bad := 0
+			for _, r := range res {
+				if r.Status == "discharged" {
+					bad++
+					fmt.Printf("VACUOUS %s :: %s [%s] (assumptions are contradictory here) %s\n", r.O.Fn, r.O.Name, r.O.Pos, r.File)
+				}
+			}
+			fmt.Printf("%d cover points, %d vacuous\n", len(res), bad)
+			if bad > 0 {
+				os.Exit(1)
+			}
+			return
+		}
 		nfail := 0
 		sort.SliceStable(res, func(i, j int) bool { return res[i].Status > res[j].Status })
 		for _, r := range res {
